@@ -84,7 +84,7 @@ def main():
         ],
         "checks": checks,
         "not_applicable": [],
-        "notes": "See DESIGN.md (sections 9 and 10 describe what was built and the seeded-defect experiments). ./check <ID> --tier quick|thorough; exit 0 / 1 / 2 (2 = machinery error, never a verdict). Five genuine defects were repaired by fix: commits in /repo (1c417c6, 7a9c7ce, de5fd97, de9c395, 4747514), one is recorded in KNOWN_FINDINGS.txt (C13).",
+        "notes": "See DESIGN.md (sections 9 and 10 describe what was built and the seeded-defect experiments). ./check <ID> --tier quick|thorough; exit 0 / 1 / 2 (2 = machinery error, never a verdict). Six genuine defects were repaired by fix: commits in /repo (1c417c6, 7a9c7ce, de5fd97, de9c395, 4747514, d530c60), one is recorded in KNOWN_FINDINGS.txt (C13).",
     }
     json.dump(m, open(os.path.join(VERIF, "MANIFEST.json"), "w"), indent=1)
 
